@@ -15,7 +15,9 @@
     the same T that is reported as pred_turnout;
  R5 merge keys: for every office class and aggregate level, the `on=` list of the cross-estimand merge contains every column of
     the per-estimand tables that does not carry the estimand name;
- R6 key availability: whenever unexpected units are grouped by a key (county / district), that key is recovered for them;
+ R6 key availability: whenever unexpected units are grouped by a key (county / district), that key is recovered for them; the key is
+   re-derived from the unit id only on rows taken from the feed - never on a frame that also holds baseline units (the non-modelled ones
+   share the third frame), whose baseline keys would be overwritten and whose votes would move to the group the id spells (R6.baseline-keys);
  R7 feed-private: get_estimates never writes to the caller's feed frame (the estimandizer computes derived result columns only when
     absent, so a feed object refreshed in place and passed again would otherwise report the previous poll's derived columns).
 """
@@ -517,6 +519,52 @@ def _dynamic_on_ok(assign):
     return ".columns" in src
 
 
+_ROW_KEEPING = {"reset_index", "copy", "drop_duplicates", "fillna", "assign", "drop", "rename", "sort_values", "query", "astype", "dropna", "head",
+                "tail", "sample", "reindex", "set_index", "replace", "where", "mask", "convert_dtypes", "infer_objects"}
+
+
+def _row_sources(t, _seen=None):
+    """which kinds of rows a frame term holds: 'feed' (self.current_data / _get_unexpected_units), 'baseline' (self.data, the preprocessed
+    data, the non-modelled units). Follows the row spine: updates, selections and row-keeping methods keep the rows of their receiver, a
+    concat has the rows of all its members, a branch those of either side."""
+    _seen = _seen if _seen is not None else set()
+    if id(t) in _seen:
+        return set()
+    _seen.add(id(t))
+    k = t[0]
+    if k in ("setitem", "mut"):
+        return _row_sources(t[1], _seen)
+    if k == "sub":
+        return _row_sources(t[1], _seen)
+    if k == "phi":
+        return _row_sources(t[2], _seen) | _row_sources(t[3], _seen)
+    if k == "attr":
+        if t[2] == "current_data":
+            return {"feed"}
+        if t[2] in ("data", "preprocessed_data"):
+            return {"baseline"}
+        if t[2] in ("loc", "iloc"):
+            return _row_sources(t[1], _seen)
+        return set()
+    if k == "call":
+        f = t[1]
+        if f[0] == "global" and f[1] == "pandas.concat" and t[2]:
+            out = set()
+            for m in (t[2][0][1] if t[2][0][0] in ("list", "tuple") else t[2]):
+                out |= _row_sources(m, _seen)
+            return out
+        if f[0] == "attr":
+            if f[2] == "_get_non_modeled_units" or f[2].startswith("_get_units_with") or f[2] == "_fit_outlier_detection_model":
+                return {"baseline"}
+            if f[2] == "_get_unexpected_units":
+                return {"feed"}
+            if f[2] in _ROW_KEEPING:
+                return _row_sources(f[1], _seen)
+            if f[2] == "merge":
+                return _row_sources(f[1], _seen) | (_row_sources(t[2][0], _seen) if t[2] else set())
+    return set()
+
+
 def key_availability(ctx, rule):
     """R6 / C11.R2: keys used to group unexpected units must have been recovered for them."""
     repo = ctx.repo
@@ -538,6 +586,37 @@ def key_availability(ctx, rule):
                 else:
                     raise AnalysisError(f"{uf.where(st)}: recovery of {util.const(tg.slice)} is guarded by {ast.unparse(e)} (not understood)")
             recover[util.const(tg.slice)] = conds
+    # the recovery may also sit in get_units itself (moved there, or a helper that was inlined back): read it from the def-use terms, and
+    # ask on the way WHICH ROWS the key is written on. Rows of baseline units (the non-modelled ones share the third frame) have their
+    # keys from the baseline; a key re-derived from the id moves such a unit's votes to the group its id spells - another group, or one no
+    # unit belongs to - whenever the baseline assigns it elsewhere (independent cities reported with a county, redistricted units).
+    gu_f = ctx.fn("elexmodel.handlers.data.CombinedData", "CombinedDataHandler.get_units")
+    b_ = ctx.builder()
+    for fn_ in (uf, gu_f):
+        try:
+            sm_ = b_.summarize(fn_)
+        except AnalysisError:
+            continue
+        for pc_, _nm, t_, n_ in sm_.assigns:
+            if not (t_[0] == "setitem" and t_[2][0] == "const" and t_[2][1] in ("county_fips", "district")):
+                continue
+            k_ = t_[2][1]
+            if fn_ is gu_f and k_ not in recover:
+                conds = []
+                for c_, pol_ in pc_:
+                    if c_[0] == "cmp" and c_[1] in ("in", "not in") and c_[2][0] == "const" and c_[3][0] == "param":
+                        conds.append((c_[2][1], pol_ == (c_[1] == "in")))
+                    elif ir.show(c_).startswith("<loop"):
+                        continue
+                    else:
+                        raise AnalysisError(f"{fn_.where(n_)}: recovery of {k_} is guarded by {ir.show(c_, maxdepth=4)} (not understood)")
+                recover[k_] = conds
+            base_rows = _row_sources(t_[1])
+            okb = "baseline" not in base_rows
+            ctx.ob(rule + ".baseline-keys", f"{fn_.qualname}|{k_} is derived from the id only for units taken from the feed", okb, fn_.where(n_),
+                   f"{k_} is written on rows from {sorted(base_rows) or ['the feed']}" if okb else
+                   f"{k_} is re-derived from the unit id on a frame that also holds baseline units (non-modelled units: blocklisted, zero baseline, "
+                   f"outliers): their baseline {k_} is overwritten and their votes move to the group the id spells")
     ctx.sites(rule, len(recover), 1, "key recovery for unexpected units (county_fips, district)")
 
     def recovered(passed_list):
